@@ -121,6 +121,7 @@ func sameBoolMap(a, b map[string]bool) bool {
 type inT struct {
 	Envs       []envT
 	Jobs       []jobT
+	SharedSlot bool // the parent context of all renders comes from inside goht (it already carries goht's per-render value)
 	Goroutines int
 }
 type resT struct {
@@ -235,6 +236,10 @@ func main() {
 	}
 	out := bufio.NewWriter(os.Stdout)
 	enc := json.NewEncoder(out)
+	if in.SharedSlot {
+		// as a hand-written component does that fans its parts out to goroutines with the context it was given
+		parent, _ = goht.PopChildren(parent)
+	}
 	if in.Goroutines > 1 {
 		concurrent = true
 		res := make([]resT, len(in.Jobs))
@@ -374,7 +379,12 @@ func (b *Batch) Run(envs []Env, jobs []Job, timeout time.Duration) ([]Result, er
 
 // RunConc runs the jobs from g goroutines sharing one parent context; returns the stderr too (race reports).
 func (b *Batch) RunConc(envs []Env, jobs []Job, timeout time.Duration, g int) ([]Result, string, error) {
-	in, _ := json.Marshal(map[string]any{"Envs": envs, "Jobs": jobs, "Goroutines": g})
+	return b.RunConcOpt(envs, jobs, timeout, g, false)
+}
+
+// RunConcOpt: sharedSlot = the renders' parent context already carries goht's per-render value.
+func (b *Batch) RunConcOpt(envs []Env, jobs []Job, timeout time.Duration, g int, sharedSlot bool) ([]Result, string, error) {
+	in, _ := json.Marshal(map[string]any{"Envs": envs, "Jobs": jobs, "Goroutines": g, "SharedSlot": sharedSlot})
 	cmd := exec.Command(filepath.Join(b.Dir, "b"))
 	cmd.Stdin = bytes.NewReader(in)
 	var out, errb bytes.Buffer
